@@ -1,16 +1,21 @@
 //! C09 — `/source/v1` only ever reads files named by the debug info of the queried address.
 //!
 //! Drives the real `samply_api::Api::query_api("/source/v1", body)` in-process over a **recording
-//! helper**: its `FileLocation` type remembers which `location_for_*` constructor made it, and
-//! `load_file` records every load, so the ordered list of *source-file* loads during one request is
-//! observable. Modules are served three ways:
+//! helper**: its `FileLocation` type remembers which `location_for_*` constructor made it, on which
+//! location (the receiver) it was called and whether that one is local or remote, and `load_file`
+//! records every load, so the ordered list of *source-file* loads during one request is observable
+//! together with the receiver of `location_for_source_file`. One case = ONE `SymbolManager` serving
+//! one library: a batched `/symbolicate/v5` request for all offsets of the case and their neighbours,
+//! then `/source/v1` requests for 1-4 offsets, interleaved. Modules are served three ways:
 //!   * `synth`  a helper-supplied `SymbolMapTrait` (the `get_symbol_map_for_library` hook) whose frame
 //!              tables are generated: arbitrary raw paths / mapped paths / missing files per frame;
 //!   * `sym`    a generated Breakpad `.sym` text with FILE / FUNC / INLINE / line records, parsed by the
 //!              real Breakpad code (plain, `hg:` `git:` `s3:` `cargo:` spellings);
-//!   * `file`   fixtures of the repository with DWARF / dwo / dwp / debuglink / dSYM / OSO / PDB debug info.
-//! For the queried `(module, offset)` the generator performs the direct `SymbolMap::lookup` (the oracle
-//! of the model) and runs `/symbolicate/v5` (the permitted set of the judge) and prints both into the ops.
+//!   * `file`   fixtures of the repository with DWARF / dwo / dwp / debuglink / dSYM / OSO / PDB debug info
+//!              and `corpus/C09/fixtures/rustdemo` (DWARF with `/rustc/` and cargo-registry paths).
+//! The helper offers 1-3 debug-file candidates (local / remote; the library, another build, nothing,
+//! garbage); the oracle lines are computed per candidate with `load_symbol_map_from_location` and a
+//! direct `SymbolMap::lookup` on a fresh symbol map.
 //!
 //! ops / out: see `lean/SamplyModel/Iface/C09.lean`.
 use std::borrow::Cow;
@@ -22,8 +27,8 @@ use samply_symbols::debugid::DebugId;
 use samply_symbols::{
     CandidatePathInfo, ElfBuildId, FileAndPathHelper, FileAndPathHelperResult, FileLocation,
     FrameDebugInfo, FramesLookupResult, LibraryInfo, LookupAddress, MappedPath,
-    OptionallySendFuture, SourceFilePath, SymbolInfo, SymbolManager, SymbolMapTrait,
-    SyncAddressInfo,
+    MultiArchDisambiguator, OptionallySendFuture, SourceFilePath, SymbolInfo, SymbolManager,
+    SymbolMapTrait, SyncAddressInfo,
 };
 use verif_harness::common::*;
 
@@ -49,12 +54,44 @@ enum Kind {
     Supplementary,
 }
 
-/// A location remembers which constructor made it.
+/// how `location_for_source_file` answers
+#[derive(Clone, Copy, Debug, PartialEq, Eq)]
+enum Policy {
+    All,
+    Abs,
+    /// transcription of `wholesym/src/helper.rs:92-125` (`WholesymFileLocation` is not exported):
+    /// a remote receiver makes no location; `http(s)://` raw paths become URLs; absolute raw paths are
+    /// taken as they are; relative ones are joined to the directory of the receiver
+    Wholesym,
+}
+
+impl Policy {
+    fn name(self) -> &'static str {
+        match self {
+            Policy::All => "all",
+            Policy::Abs => "abs",
+            Policy::Wholesym => "wholesym",
+        }
+    }
+    fn parse(s: &str) -> Option<Policy> {
+        match s {
+            "all" => Some(Policy::All),
+            "abs" => Some(Policy::Abs),
+            "wholesym" => Some(Policy::Wholesym),
+            _ => None,
+        }
+    }
+}
+
+/// A location remembers which constructor made it, whether it descends from a local or a remote
+/// candidate and — for source files — the path of the location it was derived from.
 #[derive(Clone, Debug)]
 struct Loc {
     kind: Kind,
     path: String,
-    abs_only: bool,
+    remote: bool,
+    policy: Policy,
+    base: Option<String>,
 }
 
 impl std::fmt::Display for Loc {
@@ -64,8 +101,14 @@ impl std::fmt::Display for Loc {
 }
 
 impl Loc {
+    fn debug(path: String, remote: bool, policy: Policy) -> Loc {
+        Loc { kind: Kind::Debug, path, remote, policy, base: None }
+    }
     fn derived(&self, kind: Kind, path: String) -> Loc {
-        Loc { kind, path, abs_only: self.abs_only }
+        Loc { kind, path, remote: self.remote, policy: self.policy, base: None }
+    }
+    fn source(&self, path: String) -> Loc {
+        Loc { kind: Kind::Source, path, remote: self.remote, policy: self.policy, base: Some(self.path.clone()) }
     }
 }
 
@@ -93,10 +136,32 @@ impl FileLocation for Loc {
         None
     }
     fn location_for_source_file(&self, source_file_path: &str) -> Option<Self> {
-        if self.abs_only && !source_file_path.starts_with('/') {
-            return None;
+        match self.policy {
+            Policy::All => Some(self.source(source_file_path.to_string())),
+            Policy::Abs => {
+                if source_file_path.starts_with('/') {
+                    Some(self.source(source_file_path.to_string()))
+                } else {
+                    None
+                }
+            }
+            Policy::Wholesym => {
+                use std::path::Path;
+                if self.remote {
+                    return None; // helper.rs:119-127
+                }
+                if source_file_path.starts_with("https://") || source_file_path.starts_with("http://") {
+                    return Some(self.source(format!("url:{source_file_path}"))); // helper.rs:95-108
+                }
+                let p = Path::new(source_file_path);
+                if p.is_absolute() {
+                    Some(self.source(source_file_path.to_string())) // helper.rs:110-111
+                } else {
+                    // helper.rs:112-117
+                    Path::new(&self.path).parent().map(|b| self.source(b.join(p).to_string_lossy().to_string()))
+                }
+            }
         }
-        Some(self.derived(Kind::Source, source_file_path.to_string()))
     }
     fn location_for_breakpad_symindex(&self) -> Option<Self> {
         None
@@ -123,7 +188,7 @@ impl Deref for Bytes {
 enum ModuleKind {
     Synth(Arc<SynthMap>),
     Sym(Bytes),
-    /// path relative to `<repo>/fixtures`
+    /// path relative to `<repo>/fixtures`, or `corpus:<file>` = `<verif>/corpus/C09/fixtures/<file>`
     File(String),
 }
 
@@ -134,10 +199,95 @@ struct ModuleSpec {
     breakpad_id: String,
 }
 
+/// what the helper serves at a candidate's path
+#[derive(Clone, Copy, Debug, PartialEq, Eq)]
+enum Content {
+    Ok,
+    Other,
+    Absent,
+    Junk,
+}
+
+impl Content {
+    fn name(self) -> &'static str {
+        match self {
+            Content::Ok => "ok",
+            Content::Other => "other",
+            Content::Absent => "absent",
+            Content::Junk => "junk",
+        }
+    }
+    fn parse(s: &str) -> Option<Content> {
+        match s {
+            "ok" => Some(Content::Ok),
+            "other" => Some(Content::Other),
+            "absent" => Some(Content::Absent),
+            "junk" => Some(Content::Junk),
+            _ => None,
+        }
+    }
+}
+
+#[derive(Clone, Debug)]
+struct Cand {
+    remote: bool,
+    path: String,
+    content: Content,
+}
+
+/// the helper's configuration of one case
+#[derive(Clone)]
+struct HelperCfg {
+    direct: bool,
+    cands: Vec<Cand>,
+    policy: Policy,
+    aux: bool,
+}
+
+impl HelperCfg {
+    fn single(path: String) -> HelperCfg {
+        HelperCfg { direct: false, cands: vec![Cand { remote: false, path, content: Content::Ok }], policy: Policy::All, aux: true }
+    }
+    fn line(&self) -> String {
+        let mut s = format!("helper {}", if self.direct { "d" } else { "c" });
+        for c in &self.cands {
+            s.push_str(&format!(" {},{},{}", if c.remote { "r" } else { "l" }, hx(&c.path), c.content.name()));
+        }
+        s
+    }
+    fn parse(l: &str) -> Option<(bool, Vec<Cand>)> {
+        let w: Vec<&str> = l.split_whitespace().collect();
+        if w.len() < 2 || w[0] != "helper" {
+            return None;
+        }
+        let mut cands = Vec::new();
+        for t in &w[2..] {
+            let p: Vec<&str> = t.split(',').collect();
+            if p.len() != 3 {
+                return None;
+            }
+            cands.push(Cand { remote: p[0] == "r", path: unhx(p[1]), content: Content::parse(p[2])? });
+        }
+        Some((w[1] == "d", cands))
+    }
+}
+
+fn repo_dir() -> String {
+    std::env::var("VERIF_REPO").unwrap_or_else(|_| concat!(env!("CARGO_MANIFEST_DIR"), "/../repo-link").to_string())
+}
 fn fixtures_dir() -> String {
-    let repo = std::env::var("VERIF_REPO")
-        .unwrap_or_else(|_| concat!(env!("CARGO_MANIFEST_DIR"), "/../repo-link").to_string());
-    format!("{repo}/fixtures")
+    format!("{}/fixtures", repo_dir())
+}
+fn corpus_fixtures_dir() -> String {
+    let root = std::env::var("VERIF_ROOT").unwrap_or_else(|_| concat!(env!("CARGO_MANIFEST_DIR"), "/..").to_string());
+    format!("{root}/corpus/C09/fixtures")
+}
+/// where a `file` module really lives on disk
+fn real_path(rel: &str) -> String {
+    match rel.strip_prefix("corpus:") {
+        Some(f) => format!("{}/{}", corpus_fixtures_dir(), f),
+        None => format!("{}/{}", fixtures_dir(), rel),
+    }
 }
 
 fn file_cache() -> &'static Mutex<HashMap<String, Option<Bytes>>> {
@@ -157,33 +307,56 @@ fn read_disk(path: &str) -> Option<Bytes> {
 
 struct RecHelper {
     module: ModuleSpec,
-    abs_only: bool,
+    cfg: HelperCfg,
     /// virtual source tree: location path -> contents
     store: HashMap<String, Bytes>,
-    log: Mutex<Vec<(Kind, String)>>,
+    log: Mutex<Vec<Loc>>,
 }
 
 impl RecHelper {
-    fn new(module: ModuleSpec, abs_only: bool, store: HashMap<String, Bytes>) -> Self {
-        RecHelper { module, abs_only, store, log: Mutex::new(Vec::new()) }
+    fn new(module: ModuleSpec, cfg: HelperCfg, store: HashMap<String, Bytes>) -> Self {
+        RecHelper { module, cfg, store, log: Mutex::new(Vec::new()) }
     }
-    fn take_log(&self) -> Vec<(Kind, String)> {
+    fn take_log(&self) -> Vec<Loc> {
         std::mem::take(&mut *self.log.lock().unwrap())
     }
-    fn main_loc(&self) -> Option<Loc> {
-        let path = match &self.module.kind {
-            ModuleKind::Synth(_) => format!("synth:{}", self.module.debug_name),
-            ModuleKind::Sym(_) => format!("mem:{}.sym", self.module.debug_name),
-            ModuleKind::File(rel) => format!("{}/{}", fixtures_dir(), rel),
-        };
-        Some(Loc { kind: Kind::Debug, path, abs_only: self.abs_only })
+    fn cand_loc(&self, i: usize) -> Loc {
+        let c = &self.cfg.cands[i];
+        Loc::debug(c.path.clone(), c.remote, self.cfg.policy)
     }
     /// the directory of the module's fixture: auxiliary files recorded with the original build
     /// machine's paths are looked for next to the fixture, by file name
     fn fixture_dir(&self) -> Option<String> {
         match &self.module.kind {
-            ModuleKind::File(rel) => Some(dir_of(&format!("{}/{}", fixtures_dir(), rel)).to_string()),
+            ModuleKind::File(rel) => Some(dir_of(&real_path(rel)).to_string()),
             _ => None,
+        }
+    }
+    /// the bytes served for a debug-file candidate
+    fn cand_bytes(&self, c: &Cand) -> Option<Bytes> {
+        match c.content {
+            Content::Absent => None,
+            Content::Junk => Some(Bytes(Arc::new(b"this is not a symbol file\n\0\x01\x02junk".repeat(8)))),
+            Content::Ok => match &self.module.kind {
+                ModuleKind::Sym(b) => Some(b.clone()),
+                ModuleKind::File(rel) => read_disk(&real_path(rel)),
+                ModuleKind::Synth(_) => None,
+            },
+            Content::Other => match &self.module.kind {
+                // another build of the same library: same text, different id
+                ModuleKind::Sym(b) => {
+                    let text = String::from_utf8_lossy(b).to_string();
+                    let mut id: Vec<char> = self.module.breakpad_id.chars().collect();
+                    id[1] = if id[1] == 'A' { 'B' } else { 'A' };
+                    let id: String = id.into_iter().collect();
+                    Some(Bytes(Arc::new(text.replacen(&self.module.breakpad_id, &id, 1).into_bytes())))
+                }
+                ModuleKind::File(rel) => {
+                    let other = if rel.contains("example-linux") { "other/ls-linux/260a3e6e46db57abf718f6a3562c6eedccf269.debug" } else { "other/example-linux" };
+                    read_disk(&real_path(other))
+                }
+                ModuleKind::Synth(_) => None,
+            },
         }
     }
 }
@@ -200,13 +373,10 @@ impl FileAndPathHelper for RecHelper {
         &self,
         info: &LibraryInfo,
     ) -> FileAndPathHelperResult<Vec<CandidatePathInfo<Loc>>> {
-        if info.debug_name.as_deref() != Some(self.module.debug_name.as_str()) {
+        if info.debug_name.as_deref() != Some(self.module.debug_name.as_str()) || self.cfg.direct {
             return Ok(vec![]);
         }
-        match &self.module.kind {
-            ModuleKind::Synth(_) => Ok(vec![]),
-            _ => Ok(self.main_loc().into_iter().map(CandidatePathInfo::SingleFile).collect()),
-        }
+        Ok((0..self.cfg.cands.len()).map(|i| CandidatePathInfo::SingleFile(self.cand_loc(i))).collect())
     }
     fn get_candidate_paths_for_binary(
         &self,
@@ -236,21 +406,25 @@ impl FileAndPathHelper for RecHelper {
         &self,
         location: Loc,
     ) -> std::pin::Pin<Box<dyn OptionallySendFuture<Output = FileAndPathHelperResult<Bytes>> + '_>> {
-        self.log.lock().unwrap().push((location.kind, location.path.clone()));
-        let r: FileAndPathHelperResult<Bytes> = if location.kind == Kind::Source {
+        self.log.lock().unwrap().push(location.clone());
+        let r: FileAndPathHelperResult<Bytes> = match location.kind {
             // source files come from the virtual store only: nothing of the real file system
-            self.store.get(&location.path).cloned().ok_or_else(|| not_found(&location.path))
-        } else if let (true, ModuleKind::Sym(b)) = (location.path.starts_with("mem:"), &self.module.kind) {
-            Ok(b.clone())
-        } else {
-            match read_disk(&location.path) {
+            Kind::Source => self.store.get(&location.path).cloned().ok_or_else(|| not_found(&location.path)),
+            // debug-file candidates: what the case says is there
+            Kind::Debug => match self.cfg.cands.iter().find(|c| c.path == location.path) {
+                Some(c) => self.cand_bytes(c).ok_or_else(|| not_found(&location.path)),
+                None => Err(not_found(&location.path)),
+            },
+            Kind::Dwo | Kind::Dwp | Kind::ExtObj if !self.cfg.aux => Err(not_found(&location.path)),
+            // auxiliary files: from disk, by name next to the fixture
+            _ => match read_disk(&location.path) {
                 Some(b) => Ok(b),
                 None => match self.fixture_dir() {
                     Some(d) => read_disk(&format!("{}/{}", d, base_of(&location.path)))
                         .ok_or_else(|| not_found(&location.path)),
                     None => Err(not_found(&location.path)),
                 },
-            }
+            },
         };
         Box::pin(async move { r })
     }
@@ -260,10 +434,12 @@ impl FileAndPathHelper for RecHelper {
     ) -> Option<(Loc, Arc<dyn SymbolMapTrait + Send + Sync>)> {
         match &self.module.kind {
             ModuleKind::Synth(m)
-                if info.debug_name.as_deref() == Some(self.module.debug_name.as_str())
+                if self.cfg.direct
+                    && !self.cfg.cands.is_empty()
+                    && info.debug_name.as_deref() == Some(self.module.debug_name.as_str())
                     && info.debug_id == Some(m.debug_id) =>
             {
-                Some((self.main_loc()?, m.clone() as Arc<dyn SymbolMapTrait + Send + Sync>))
+                Some((self.cand_loc(0), m.clone() as Arc<dyn SymbolMapTrait + Send + Sync>))
             }
             _ => None,
         }
@@ -451,7 +627,7 @@ fn parse_module_line(l: &str) -> Option<ModuleSpec> {
 }
 
 // ---------------------------------------------------------------------------------------------
-// oracle: direct lookup and /symbolicate/v5
+// oracle: per-candidate load, direct lookup on a fresh symbol map, batched /symbolicate/v5
 // ---------------------------------------------------------------------------------------------
 
 fn library_info(m: &ModuleSpec) -> Option<LibraryInfo> {
@@ -462,77 +638,208 @@ fn library_info(m: &ModuleSpec) -> Option<LibraryInfo> {
     })
 }
 
-/// `lookup <class> <frame>*` for each offset, through `SymbolManager::load_symbol_map` +
-/// `SymbolMap::lookup` (the same two calls `/source/v1` makes)
-fn direct_lookups(m: &ModuleSpec, offsets: &[u32]) -> Vec<(String, Frames)> {
-    let sm = SymbolManager::with_helper(RecHelper::new(m.clone(), false, HashMap::new()));
-    futures::executor::block_on(async {
-        let map = match library_info(m) {
-            Some(info) => sm.load_symbol_map(&info).await.ok(),
-            None => None,
-        };
-        let mut out = Vec::new();
-        for &o in offsets {
-            let r = match &map {
-                None => ("nosymbols".to_string(), Vec::new()),
-                Some(map) => match map.lookup(LookupAddress::Relative(o)).await {
-                    None => ("notfound".to_string(), Vec::new()),
-                    Some(ai) => match ai.frames {
-                        None => ("noframes".to_string(), Vec::new()),
-                        Some(fr) => ("frames".to_string(), fr.into_iter().map(|f| f.file_path).collect()),
+fn tag(remote: bool) -> &'static str {
+    if remote {
+        "r"
+    } else {
+        "l"
+    }
+}
+
+/// `loaded <res>*`: every candidate alone through `load_symbol_map_from_location` (with the disambiguator
+/// `load_symbol_map` passes, lib.rs:334-339): `e` or `<breakpadId>,<tag>,<debug_file_location path>`.
+/// Not through `load_symbol_map`: its candidate loop is what the model describes.
+/// every non-source load of the oracle runs: the auxiliary files that belong to the library
+type Legit = BTreeSet<(Kind, String)>;
+
+fn note_loads(h: &RecHelper, legit: &mut Legit) {
+    for l in h.take_log() {
+        if l.kind != Kind::Source {
+            legit.insert((l.kind, l.path));
+        }
+    }
+}
+
+fn loaded_line(m: &ModuleSpec, cfg: &HelperCfg) -> String {
+    loaded_line_noting(m, cfg, &mut Legit::new())
+}
+
+fn loaded_line_noting(m: &ModuleSpec, cfg: &HelperCfg, legit: &mut Legit) -> String {
+    let mut s = String::from("loaded");
+    let id = DebugId::from_breakpad(&m.breakpad_id).ok();
+    if cfg.direct {
+        match (&m.kind, cfg.cands.first()) {
+            (ModuleKind::Synth(sm), Some(c)) => {
+                s.push_str(&format!(" {},{},{}", sm.debug_id.breakpad().to_string().to_uppercase(), tag(c.remote), hx(&c.path)))
+            }
+            _ => s.push_str(" e"),
+        }
+        return s;
+    }
+    for i in 0..cfg.cands.len() {
+        let helper = RecHelper::new(m.clone(), cfg.clone(), HashMap::new());
+        let loc = helper.cand_loc(i);
+        let sm = SymbolManager::with_helper(helper);
+        let r = futures::executor::block_on(sm.load_symbol_map_from_location(loc, id.map(MultiArchDisambiguator::DebugId)));
+        note_loads(&sm.helper(), legit);
+        match r {
+            Ok(map) => {
+                let dfl = map.debug_file_location();
+                s.push_str(&format!(" {},{},{}", map.debug_id().breakpad().to_string().to_uppercase(), tag(dfl.remote), hx(&dfl.path)));
+            }
+            Err(_) => s.push_str(" e"),
+        }
+    }
+    s
+}
+
+/// index of the first `loaded` entry with the requested id (specification side of the candidate choice)
+fn winner_of(loaded: &str, id: &str) -> Option<usize> {
+    loaded.split_whitespace().skip(1).position(|t| t.split(',').next() == Some(id))
+}
+
+/// the debug file's location according to the `loaded` line
+fn winner_loc(loaded: &str, id: &str, policy: Policy) -> Option<Loc> {
+    let i = winner_of(loaded, id)?;
+    let t = loaded.split_whitespace().nth(1 + i)?;
+    let w: Vec<&str> = t.split(',').collect();
+    Some(Loc::debug(unhx(w.get(2)?), w.get(1) == Some(&"r"), policy))
+}
+
+/// `SymbolMap::lookup` of each offset, every one on a FRESH symbol map of the winning candidate (what
+/// `/source/v1` does per request), obtained with `load_symbol_map_from_location` / the helper's own map
+fn direct_lookups(m: &ModuleSpec, cfg: &HelperCfg, loaded: &str, offsets: &[u32]) -> Vec<(String, Frames)> {
+    direct_lookups_noting(m, cfg, loaded, offsets, &mut Legit::new())
+}
+
+fn direct_lookups_noting(m: &ModuleSpec, cfg: &HelperCfg, loaded: &str, offsets: &[u32], legit: &mut Legit) -> Vec<(String, Frames)> {
+    let win = winner_of(loaded, &m.breakpad_id);
+    let id = DebugId::from_breakpad(&m.breakpad_id).ok();
+    offsets
+        .iter()
+        .map(|&o| {
+            let helper = RecHelper::new(m.clone(), cfg.clone(), HashMap::new());
+            let sm = SymbolManager::with_helper(helper);
+            let r = futures::executor::block_on(async {
+                let map = match (win, cfg.direct, library_info(m)) {
+                    (Some(_), true, Some(info)) => sm.load_symbol_map(&info).await.ok(),
+                    (Some(i), false, _) => {
+                        let loc = sm.helper().cand_loc(i);
+                        sm.load_symbol_map_from_location(loc, id.map(MultiArchDisambiguator::DebugId)).await.ok()
+                    }
+                    _ => None,
+                };
+                match &map {
+                    None => ("nosymbols".to_string(), Vec::new()),
+                    Some(map) => match map.lookup(LookupAddress::Relative(o)).await {
+                        None => ("notfound".to_string(), Vec::new()),
+                        Some(ai) => match ai.frames {
+                            None => ("noframes".to_string(), Vec::new()),
+                            Some(fr) => ("frames".to_string(), fr.into_iter().map(|f| f.file_path).collect()),
+                        },
                     },
-                },
-            };
-            out.push(r);
-        }
-        out
-    })
+                }
+            });
+            note_loads(&sm.helper(), legit);
+            r
+        })
+        .collect()
 }
 
-fn lookup_line(class: &str, frames: &Frames) -> String {
-    let mut s = format!("lookup {class}");
-    for f in frames {
-        s.push(' ');
-        s.push_str(&frame_token(f));
+fn lookup_line(offsets: &[u32], looks: &[(String, Frames)]) -> String {
+    let mut s = String::from("lookup");
+    for (o, (class, frames)) in offsets.iter().zip(looks) {
+        s.push_str(&format!(" {o}={class}"));
+        for f in frames {
+            s.push('/');
+            s.push_str(&frame_token(f));
+        }
     }
     s
 }
 
-/// `sym none` | `sym files <outer|~> <inline|~>*` from a real `/symbolicate/v5` request for the offset
-fn symbolicate_line(m: &ModuleSpec, offset: u32) -> String {
-    let sm = SymbolManager::with_helper(RecHelper::new(m.clone(), false, HashMap::new()));
-    let api = samply_api::Api::new(&sm);
-    let body = serde_json::json!({
-        "memoryMap": [[m.debug_name, m.breakpad_id]],
-        "stacks": [[[0, offset]]],
-    })
-    .to_string();
-    // a helper-supplied symbol map that returns `Available(vec![])` (against the documented contract
-    // "the last element is always the outer function") makes create_response panic: excluded point
-    let resp = match std::panic::catch_unwind(std::panic::AssertUnwindSafe(|| {
-        futures::executor::block_on(api.query_api("/symbolicate/v5", &body))
-    })) {
-        Ok(r) => r,
-        Err(_) => return "sym panic".to_string(),
-    };
-    let v: serde_json::Value = serde_json::from_str(&resp).unwrap_or(serde_json::Value::Null);
-    let fr = &v["results"][0]["stacks"][0][0];
-    let obj = match fr.as_object() {
-        Some(o) => o,
-        None => return "sym none".to_string(),
-    };
-    if !obj.contains_key("file") && !obj.contains_key("inlines") && !obj.contains_key("line") {
-        return "sym none".to_string();
+fn parse_lookup_line(l: &str) -> Option<Vec<(u32, String, Frames)>> {
+    let mut v = Vec::new();
+    for t in l.split_whitespace().skip(1) {
+        let (o, rest) = t.split_once('=')?;
+        let mut it = rest.split('/');
+        let class = it.next()?.to_string();
+        let frames: Frames = it.map(parse_frame_token).collect::<Option<Frames>>()?;
+        v.push((o.parse().ok()?, class, frames));
     }
+    Some(v)
+}
+
+/// the addresses of the one `/symbolicate/v5` request of a case: neighbours of every offset first, then the
+/// offsets themselves in reverse order (the code sorts them; a symbol map shared by the batch sees them all)
+fn batch_addresses(offsets: &[u32]) -> Vec<u32> {
+    let mut v = Vec::new();
+    for &o in offsets {
+        for d in [-9i64, -1, 1, 4, 17] {
+            let a = o as i64 + d;
+            if a >= 0 && a <= u32::MAX as i64 {
+                v.push(a as u32);
+            }
+        }
+    }
+    v.extend(offsets.iter().rev());
+    v
+}
+
+fn sym_token_line(o: u32, fr: &serde_json::Value) -> String {
     let tok = |x: &serde_json::Value| x.as_str().map(hx).unwrap_or_else(|| "~".to_string());
-    let mut s = format!("sym files {}", tok(&fr["file"]));
-    if let Some(inl) = fr["inlines"].as_array() {
-        for i in inl {
-            s.push(' ');
-            s.push_str(&tok(&i["file"]));
-        }
+    let has_file = fr.get("file").is_some();
+    let inl = fr.get("inlines").and_then(|i| i.as_array()).cloned().unwrap_or_default();
+    if !has_file && inl.is_empty() {
+        return format!("sym {o} -");
+    }
+    let mut s = format!("sym {o} {}", tok(&fr["file"]));
+    for i in &inl {
+        s.push(' ');
+        s.push_str(&tok(&i["file"]));
     }
     s
+}
+
+/// `sym <offset> …` for every offset from ONE `/symbolicate/v5` request over `addrs` on the given manager.
+/// A helper-supplied symbol map that returns `Available(vec![])` (against the documented contract "the last
+/// element is always the outer function") makes create_response panic: then every offset is asked alone.
+fn symbolicate_lines(sm: &SymbolManager<RecHelper>, m: &ModuleSpec, offsets: &[u32], addrs: &[u32], stats: Option<&mut Stats>) -> Vec<String> {
+    let run = |addrs: &[u32]| -> Option<serde_json::Value> {
+        let frames: Vec<serde_json::Value> = addrs.iter().map(|a| serde_json::json!([0, a])).collect();
+        let body = serde_json::json!({ "memoryMap": [[m.debug_name, m.breakpad_id]], "stacks": [frames] }).to_string();
+        let resp = std::panic::catch_unwind(std::panic::AssertUnwindSafe(|| {
+            futures::executor::block_on(samply_api::Api::new(sm).query_api("/symbolicate/v5", &body))
+        }))
+        .ok()?;
+        Some(serde_json::from_str(&resp).unwrap_or(serde_json::Value::Null))
+    };
+    match run(addrs) {
+        Some(v) => offsets
+            .iter()
+            .map(|&o| {
+                let idx = addrs.iter().rposition(|a| *a == o).unwrap_or(0);
+                sym_token_line(o, &v["results"][0]["stacks"][0][idx])
+            })
+            .collect(),
+        None => {
+            if let Some(st) = stats {
+                st.bump("symbolicate_batch_panicked");
+            }
+            offsets
+                .iter()
+                .map(|&o| match run(&[o]) {
+                    Some(v) => sym_token_line(o, &v["results"][0]["stacks"][0][0]),
+                    None => format!("sym {o} panic"),
+                })
+                .collect()
+        }
+    }
+}
+
+/// the file strings of a `sym` line
+fn sym_files(l: &str) -> Vec<String> {
+    l.split_whitespace().skip(2).filter(|t| *t != "~" && *t != "-" && *t != "panic").map(unhx).collect()
 }
 
 // ---------------------------------------------------------------------------------------------
@@ -554,9 +861,12 @@ const DIRS: [&str; 10] = [
 const BASES: [&str; 8] = ["main.rs", "lib.c", "util.h", "mod.rs", "a.cpp", "Ünï.rs", "x", "passwd"];
 
 fn gen_plain_path(rng: &mut Rng) -> String {
-    match rng.below(12) {
+    match rng.below(14) {
         0 => "/etc/passwd".to_string(),
         1 => rng.pick(&BASES).to_string(),
+        // jitdump-style URLs as raw paths: wholesym's policy turns them into URL fetches
+        12 => "https://example.org/static/app.js".to_string(),
+        13 => format!("http://cdn.example/{}", rng.pick(&BASES)),
         _ => {
             let d = *rng.pick(&DIRS);
             let sep = if d.contains('\\') { "\\" } else { "/" };
@@ -627,10 +937,12 @@ fn gen_synth_pool(rng: &mut Rng) -> Vec<SourceFilePath> {
 }
 
 fn gen_frames(rng: &mut Rng, pool: &[SourceFilePath]) -> Frames {
-    let n = match rng.below(10) {
-        0 => 1,
-        1..=5 => rng.range(1, 3),
-        _ => rng.range(2, 6),
+    let n = match rng.below(20) {
+        0..=1 => 1,
+        2..=11 => rng.range(1, 3),
+        12..=18 => rng.range(2, 6),
+        // deep inline stacks: every frame contributes to the permitted set, however many there are
+        _ => rng.range(7, 14),
     };
     (0..n).map(|_| if rng.chance(1, 6) { None } else { Some(rng.pick(pool).clone()) }).collect()
 }
@@ -701,7 +1013,8 @@ fn gen_sym_module(rng: &mut Rng) -> (ModuleSpec, Vec<u32>) {
         // nested inline ranges: depth d+1 lies inside depth d
         let mut lo = start;
         let mut hi = addr;
-        for depth in 0..rng.below(4) as u32 {
+        let max_depth = if rng.chance(1, 12) { rng.range(8, 12) } else { rng.below(4) };
+        for depth in 0..max_depth as u32 {
             if hi - lo < 2 {
                 break;
             }
@@ -732,7 +1045,7 @@ fn gen_sym_module(rng: &mut Rng) -> (ModuleSpec, Vec<u32>) {
 }
 
 /// fixtures with debug info: (path under fixtures/, debugName)
-const FIXTURES: [(&str, &str); 13] = [
+const FIXTURES: [(&str, &str); 14] = [
     ("other/example-linux", "example-linux"),
     ("other/example-linux-fallback", "example-linux-fallback"),
     ("other/simple-example/out/with-dwo/main", "main"),
@@ -746,6 +1059,9 @@ const FIXTURES: [(&str, &str); 13] = [
     ("android32-local/libsoftokn3.so", "libsoftokn3.so"),
     ("win64-ci/softokn3.pdb", "softokn3.pdb"),
     ("win64-ci/WriteArgument.pdb", "WriteArgument.pdb"),
+    // <verif>/corpus/C09/fixtures/rustdemo: freestanding Rust ELF, DWARF with /rustc/<rev>/library/… and
+    // cargo-registry file names (the only way into path_mapper.rs)
+    ("corpus:rustdemo", "rustdemo"),
 ];
 
 struct FixtureInfo {
@@ -764,12 +1080,12 @@ fn fixtures() -> &'static Vec<FixtureInfo> {
         let mut out = Vec::new();
         for (rel, name) in FIXTURES {
             let probe = ModuleSpec { kind: ModuleKind::File(rel.to_string()), debug_name: name.to_string(), breakpad_id: String::new() };
-            let helper = RecHelper::new(probe.clone(), false, HashMap::new());
-            let loc = helper.main_loc().unwrap();
+            let helper = RecHelper::new(probe.clone(), HelperCfg::single(format!("/fx/{}", virtual_name(&probe))), HashMap::new());
+            let loc = helper.cand_loc(0);
             let sm = SymbolManager::with_helper(helper);
             let found = futures::executor::block_on(async {
                 let map = sm.load_symbol_map_from_location(loc, None).await.ok()?;
-                let id = map.debug_id().breakpad().to_string();
+                let id = map.debug_id().breakpad().to_string().to_uppercase();
                 let mut syms: Vec<u32> = map.iter_symbols().map(|(a, _)| a).collect();
                 syms.sort_unstable();
                 syms.dedup();
@@ -781,7 +1097,9 @@ fn fixtures() -> &'static Vec<FixtureInfo> {
                     if i % step != 0 {
                         continue;
                     }
-                    for d in [0u32, 4, 9, 20, 37] {
+                    // small symbol tables are scanned densely
+                    let deltas: Vec<u32> = if syms.len() < 40 { (0..240).step_by(3).collect() } else { vec![0, 4, 9, 20, 37] };
+                    for d in deltas {
                         let o = s.wrapping_add(d);
                         match map.lookup(LookupAddress::Relative(o)).await {
                             Some(ai) => match ai.frames {
@@ -900,15 +1218,86 @@ fn sample<T: Clone>(rng: &mut Rng, xs: &mut Vec<T>, k: usize) -> Vec<T> {
     xs.iter().take(k).cloned().collect()
 }
 
-/// ops of one case for `(module, offset)`; `others` = file paths of other offsets of the module
-fn build_case(rng: &mut Rng, tier: Tier, m: &ModuleSpec, offset: u32, others: &[SourceFilePath]) -> Vec<String> {
+/// virtual paths of the debug-file candidates (nothing of the machine's directory layout enters the ops)
+fn virtual_name(m: &ModuleSpec) -> String {
+    match &m.kind {
+        ModuleKind::Synth(_) => m.debug_name.clone(),
+        ModuleKind::Sym(_) => format!("{}.sym", m.debug_name),
+        ModuleKind::File(rel) => rel.replace("corpus:", "corpus/"),
+    }
+}
+
+/// how the helper serves the library in this case
+fn gen_helper_cfg(rng: &mut Rng, m: &ModuleSpec) -> HelperCfg {
+    let policy = match rng.below(20) {
+        0..=9 => Policy::All,
+        10..=13 => Policy::Abs,
+        _ => Policy::Wholesym,
+    };
+    let name = virtual_name(m);
+    if let ModuleKind::Synth(_) = m.kind {
+        let path = match rng.below(8) {
+            0 => format!("synth:{name}"), // parent "" : relative raw paths stay as they are
+            1 => name.clone(),
+            2 => "/".to_string(),         // no parent: relative raw paths are refused by the wholesym policy
+            3 => format!("/{name}"),
+            _ => format!("/opt/app/lib/{name}"),
+        };
+        return HelperCfg { direct: true, cands: vec![Cand { remote: rng.chance(1, 4), path, content: Content::Ok }], policy, aux: true };
+    }
+    let l = |p: &str, c| Cand { remote: false, path: format!("/{p}/{name}"), content: c };
+    let r = |p: &str, c| Cand { remote: true, path: format!("/{p}/{name}"), content: c };
+    use Content::*;
+    let cands = match rng.below(40) {
+        0..=14 => vec![l("fx", Ok)],
+        15..=17 => vec![r("symcache", Ok)],
+        // the reviewer's scenario: nothing next to the binary, the debug file comes from a symbol server
+        18..=21 => vec![l("fx", Absent), r("symcache", Ok)],
+        22..=23 => vec![l("fx", Other), r("symcache", Ok)],
+        24..=25 => vec![r("symcache", Other), l("fx", Ok)],
+        26..=27 => vec![l("fx", Junk), l("mirror", Ok)],
+        // two candidates carry the library: the first one wins
+        28..=30 => vec![l("fx", Ok), r("symcache", Ok)],
+        31..=32 => vec![r("symcache", Ok), l("fx", Ok)],
+        33 => vec![l("fx", Ok), l("mirror", Ok)],
+        // the library cannot be had
+        34 => vec![l("fx", Absent)],
+        35 => vec![l("fx", Other), r("symcache", Junk)],
+        36 => vec![],
+        _ => {
+            let n = rng.range(2, 3);
+            (0..n)
+                .map(|i| {
+                    let c = *rng.pick(&[Ok, Ok, Other, Absent, Junk]);
+                    if rng.chance(1, 2) { l(["fx", "mirror", "m2"][i as usize], c) } else { r(["symcache", "s2", "s3"][i as usize], c) }
+                })
+                .collect()
+        }
+    };
+    // fixtures whose frames live in dwo / dwp / .o files: those are absent in a third of the cases
+    let has_aux = matches!(&m.kind, ModuleKind::File(rel) if rel.contains("dwo") || rel.contains("dwp") || rel.contains("oso"));
+    let aux = !(matches!(m.kind, ModuleKind::File(_)) && rng.chance(1, if has_aux { 3 } else { 8 }));
+    HelperCfg { direct: false, cands, policy, aux }
+}
+
+/// ops of one case for a module and 1-4 of its offsets; `others` = file paths of other offsets of the module
+fn build_case(rng: &mut Rng, tier: Tier, m: &ModuleSpec, offsets: &[u32], others: &[SourceFilePath]) -> Vec<String> {
+    let mut offsets: Vec<u32> = offsets.to_vec();
+    {
+        let mut seen = BTreeSet::new();
+        offsets.retain(|o| seen.insert(*o));
+    }
     // sometimes ask for a build of the module that the helper does not have (first id digit flipped):
     // `load_symbol_map` fails, nothing may be read
     let wrong;
     let mut others: Vec<SourceFilePath> = others.to_vec();
     let m = if !matches!(m.kind, ModuleKind::Synth(_)) && rng.chance(1, 25) {
-        // the files the right build has at this offset are requested too
-        others.extend(direct_lookups(m, &[offset]).pop().unwrap().1.into_iter().flatten());
+        // the files the right build has at these offsets are requested too
+        let cfg = HelperCfg::single(format!("/fx/{}", virtual_name(m)));
+        let loaded = loaded_line(m, &cfg);
+        for (_, fr) in direct_lookups(m, &cfg, &loaded, &offsets) {
+            others.extend(fr.into_iter().flatten());
+        }
         let mut id: Vec<char> = m.breakpad_id.chars().collect();
         id[0] = if id[0] == '1' { '2' } else { '1' };
         wrong = ModuleSpec { breakpad_id: id.into_iter().collect(), ..m.clone() };
@@ -916,80 +1305,159 @@ fn build_case(rng: &mut Rng, tier: Tier, m: &ModuleSpec, offset: u32, others: &[
     } else {
         m
     };
-    let others = &others[..];
-    let (class, frames) = direct_lookups(m, &[offset]).pop().unwrap();
-    let mut ops = vec![module_line(m), format!("offset {offset}"), lookup_line(&class, &frames), symbolicate_line(m, offset)];
-    let own: Vec<SourceFilePath> = frames.iter().flatten().cloned().collect();
+    let cfg = gen_helper_cfg(rng, m);
+    let loaded = loaded_line(m, &cfg);
+    let looks = direct_lookups(m, &cfg, &loaded, &offsets);
+    let mut ops = vec![module_line(m), cfg.line(), loaded.clone(), lookup_line(&offsets, &looks)];
+    let syms = {
+        let sm = SymbolManager::with_helper(RecHelper::new(m.clone(), cfg.clone(), HashMap::new()));
+        symbolicate_lines(&sm, m, &offsets, &batch_addresses(&offsets), None)
+    };
+    let owns: Vec<Vec<SourceFilePath>> = looks.iter().map(|(_, fr)| fr.iter().flatten().cloned().collect()).collect();
 
     // ---- requests
-    let mut reqs: Vec<(String, String, &'static str)> = Vec::new(); // (op, file, tag)
-    let mut push = |op: &str, f: String, tag: &'static str| reqs.push((op.to_string(), f, tag));
-    // every file /symbolicate/v5 reported, every spelling and raw path of the offset's frames
-    let sym = ops[3].clone();
-    for t in sym.split_whitespace().skip(2) {
-        if t != "~" {
-            push("req", unhx(t), "reported");
+    let mut reqs: Vec<(String, u32, String, &'static str)> = Vec::new(); // (op, offset, file, tag)
+    let nvar = (if tier == Tier::Thorough { 14 } else { 8 } / offsets.len()).max(3);
+    for (i, &o) in offsets.iter().enumerate() {
+        let own = &owns[i];
+        let mut push = |op: &str, f: String, tag: &'static str| reqs.push((op.to_string(), o, f, tag));
+        // every file the batched /symbolicate/v5 reported for this offset, every spelling and raw path of its frames
+        for f in sym_files(&syms[i]) {
+            push("req", f, "reported");
+        }
+        for fp in own {
+            let a = api_of(fp);
+            push("req", a.clone(), "own-api");
+            if a != fp.raw_path() {
+                push("req", fp.raw_path().to_string(), "own-raw-differs");
+            }
+        }
+        // files of the other offsets of this case: asked on the same manager, before or after those offsets
+        for (j, oth) in owns.iter().enumerate() {
+            if j != i {
+                for fp in oth {
+                    if !own.contains(fp) {
+                        push("req", api_of(fp), "other-offset-in-case");
+                        if rng.chance(1, 3) {
+                            push("req", fp.raw_path().to_string(), "other-offset-in-case");
+                        }
+                    }
+                }
+            }
+        }
+        // files of other offsets of the same module
+        let mut oth: Vec<SourceFilePath> = others.to_vec();
+        for fp in sample(rng, &mut oth, if offsets.len() > 2 { 2 } else { 4 }) {
+            push("req", api_of(&fp), "other-offset");
+            if rng.chance(1, 2) {
+                push("req", fp.raw_path().to_string(), "other-offset");
+            }
+        }
+        // arbitrary paths
+        let mut arb: Vec<&str> = ARBITRARY.to_vec();
+        for a in sample(rng, &mut arb, if offsets.len() > 2 { 1 } else { 3 }) {
+            push("req", a.to_string(), "arbitrary");
+        }
+        // decorated variants of permitted paths (spellings and raw paths)
+        let mut bases: Vec<String> = own.iter().flat_map(|fp| [api_of(fp), fp.raw_path().to_string()]).collect();
+        bases.sort();
+        bases.dedup();
+        let mut all_vars = Vec::new();
+        for b in &bases {
+            all_vars.extend(variants(rng, b));
+        }
+        for (f, tag) in sample(rng, &mut all_vars, nvar) {
+            push("req", f, tag);
+        }
+        // malformed requests naming a permitted file
+        if let Some(fp) = own.first() {
+            if rng.chance(1, 3) {
+                push("reqbadid", api_of(fp), "badid");
+            }
+            if rng.chance(1, 3) {
+                push("reqmalformed", api_of(fp), "malformed");
+            }
+        }
+        if own.is_empty() && rng.chance(1, 2) {
+            push("reqbadid", "/etc/passwd".to_string(), "badid");
         }
     }
-    for fp in &own {
-        let a = api_of(fp);
-        push("req", a.clone(), "own-api");
-        if a != fp.raw_path() {
-            push("req", fp.raw_path().to_string(), "own-raw-differs");
-        }
-    }
-    // files of other offsets of the same module
-    let mut oth: Vec<SourceFilePath> = others.to_vec();
-    for fp in sample(rng, &mut oth, 4) {
-        push("req", api_of(&fp), "other-offset");
+    // ---- the body field by field (`reqx`): other library name, id nobody has, id `to_debug_id` rejects, and the
+    // `moduleOffset` member as a string (hex.rs:23-37): prefix, sign, case, leading zeros, overflow, junk
+    let mut lines: Vec<String> = reqs.iter().map(|(op, o, f, tag)| format!("{op} {o} {} {tag}", hx(f))).collect();
+    for (i, &o) in offsets.iter().enumerate() {
+        let fname = owns[i].first().map(api_of).unwrap_or_else(|| "/etc/passwd".to_string());
+        let good = format!("0x{o:x}");
         if rng.chance(1, 2) {
-            push("req", fp.raw_path().to_string(), "other-offset");
+            let s = match rng.below(18) {
+                0 => format!("0x{o:X}"),
+                1 => format!("0x0000000{o:x}"),
+                2 => format!("0x+{o:x}"),
+                3 => format!("0x+000{o:X}"),
+                4 => format!("{o:x}"),
+                5 => format!("0X{o:x}"),
+                6 => format!("{o}"),
+                7 => format!("0x{o:x}g"),
+                8 => "0x".to_string(),
+                9 => "0x+".to_string(),
+                10 => format!("0x-{o:x}"),
+                11 => format!("0x1{o:08x}"),
+                12 => format!(" 0x{o:x}"),
+                13 => format!("0x{o:x} "),
+                14 => format!("0x{o:x}_0"),
+                15 => format!("0x++{o:x}"),
+                16 => format!("+0x{o:x}"),
+                _ => format!("0x{:x}", o as u64 + (1u64 << 32)),
+            };
+            lines.push(format!("reqx {} = {} {} offset-string", hx(&m.debug_name), hx(&s), hx(&fname)));
+        }
+        if rng.chance(1, 4) {
+            let n = match rng.below(4) {
+                0 => format!("{}.bak", m.debug_name),
+                1 => String::new(),
+                2 => m.debug_name.to_uppercase() + "x",
+                _ => "nosuch.so".to_string(),
+            };
+            lines.push(format!("reqx {} = {} {} other-name", hx(&n), hx(&good), hx(&fname)));
+        }
+        if rng.chance(1, 4) {
+            let mut id: Vec<char> = m.breakpad_id.chars().collect();
+            id[2] = if id[2] == '7' { '8' } else { '7' };
+            let id: String = id.into_iter().collect();
+            lines.push(format!("reqx {} u{} {} {} unknown-id", hx(&m.debug_name), hx(&id), hx(&good), hx(&fname)));
+        }
+        if rng.chance(1, 6) {
+            let id = match rng.below(4) {
+                0 => String::new(),
+                1 => "xyz".to_string(),
+                2 => "0".repeat(33),
+                _ => format!("G{}", &m.breakpad_id[1..]),
+            };
+            lines.push(format!("reqx {} b{} {} {} bad-id-string", hx(&m.debug_name), hx(&id), hx(&good), hx(&fname)));
         }
     }
-    // arbitrary paths
-    let mut arb: Vec<&str> = ARBITRARY.to_vec();
-    for a in sample(rng, &mut arb, 3) {
-        push("req", a.to_string(), "arbitrary");
-    }
-    // decorated variants of permitted paths (spellings and raw paths)
-    let mut bases: Vec<String> = own.iter().flat_map(|fp| [api_of(fp), fp.raw_path().to_string()]).collect();
-    bases.sort();
-    bases.dedup();
-    let nvar = if tier == Tier::Thorough { 14 } else { 8 };
-    let mut all_vars = Vec::new();
-    for b in &bases {
-        all_vars.extend(variants(rng, b));
-    }
-    for (f, tag) in sample(rng, &mut all_vars, nvar) {
-        push("req", f, tag);
-    }
-    // malformed requests naming a permitted file
-    if let Some(fp) = own.first() {
-        if rng.chance(1, 3) {
-            push("reqbadid", api_of(fp), "badid");
-        }
-        if rng.chance(1, 3) {
-            push("reqmalformed", api_of(fp), "malformed");
-        }
-    }
-    if own.is_empty() && rng.chance(1, 2) {
-        push("reqbadid", "/etc/passwd".to_string(), "badid");
-    }
-    rng.shuffle(&mut reqs);
+    rng.shuffle(&mut lines);
 
-    // ---- helper: source store and location policy
-    let abs_only = rng.chance(1, 4);
+    // ---- helper: source store. Keys are the paths of source locations: the raw strings themselves and what
+    // the debug file's location makes of them under the case's policy (joined to its directory, `url:`)
+    let win = winner_loc(&loaded, &m.breakpad_id, cfg.policy);
     let mut cand: BTreeSet<String> = BTreeSet::new();
-    for fp in own.iter().chain(others.iter().take(6)) {
-        cand.insert(fp.raw_path().to_string());
+    let mut add = |s: &str| {
+        cand.insert(s.to_string());
+        if let Some(l) = win.as_ref().and_then(|w| w.location_for_source_file(s)) {
+            cand.insert(l.path);
+        }
+    };
+    for fp in owns.iter().flatten().chain(others.iter().take(6)) {
+        add(fp.raw_path());
         // the spelling as a *location* too: loading the request string instead of the raw path would succeed
-        cand.insert(api_of(fp));
+        add(&api_of(fp));
     }
-    for (_, f, _) in &reqs {
-        cand.insert(f.clone());
+    for (_, _, f, _) in &reqs {
+        add(f);
     }
-    cand.insert("/etc/passwd".to_string());
-    let mut store = String::from(if abs_only { "store abs" } else { "store all" });
+    add("/etc/passwd");
+    let mut store = format!("store {} {}", cfg.policy.name(), if cfg.aux { "aux" } else { "noaux" });
     let mut len = 100 + rng.below(50);
     for p in cand {
         // most files exist; some are missing (the load is attempted and fails)
@@ -999,16 +1467,14 @@ fn build_case(rng: &mut Rng, tier: Tier, m: &ModuleSpec, offset: u32, others: &[
         }
     }
     ops.push(store);
-    for (op, f, tag) in reqs {
-        ops.push(format!("{op} {} {tag}", hx(&f)));
-    }
+    ops.extend(lines);
     ops
 }
 
-fn all_paths(offs: &[(u32, Frames)], except: u32) -> Vec<SourceFilePath> {
+fn all_paths(offs: &[(u32, Frames)], except: &[u32]) -> Vec<SourceFilePath> {
     let mut v: Vec<SourceFilePath> = Vec::new();
     for (o, fr) in offs {
-        if *o != except {
+        if !except.contains(o) {
             for fp in fr.iter().flatten() {
                 if !v.contains(fp) {
                     v.push(fp.clone());
@@ -1019,7 +1485,18 @@ fn all_paths(offs: &[(u32, Frames)], except: u32) -> Vec<SourceFilePath> {
     v
 }
 
+/// how many offsets a case has
+fn gen_noffsets(rng: &mut Rng) -> usize {
+    match rng.below(20) {
+        0..=5 => 1,
+        6..=12 => 2,
+        13..=16 => 3,
+        _ => 4,
+    }
+}
+
 fn gen_case(rng: &mut Rng, tier: Tier, family: u64) -> Vec<String> {
+    let n = gen_noffsets(rng);
     match family {
         // synthetic frame tables
         0 => {
@@ -1038,38 +1515,36 @@ fn gen_case(rng: &mut Rng, tier: Tier, family: u64) -> Vec<String> {
                 cands.push(f.start + f.size); // one past the end
             }
             cands.push(0);
-            let offset = if rng.chance(1, 12) { rng.below(0x4000) as u32 } else { *rng.pick(&cands) };
-            let table: Vec<(u32, Frames)> = funcs
+            let offsets: Vec<u32> =
+                (0..n).map(|_| if rng.chance(1, 12) { rng.below(0x4000) as u32 } else { *rng.pick(&cands) }).collect();
+            let others: Vec<SourceFilePath> = funcs
                 .funcs
                 .iter()
-                .flat_map(|f| f.points.iter().filter_map(|(a, fr)| fr.clone().map(|fr| (*a, fr))))
+                .flat_map(|f| f.points.iter().filter(|(a, _)| !offsets.contains(a)).filter_map(|(_, fr)| fr.clone()))
+                .flat_map(|fr| fr.into_iter().flatten())
                 .collect();
-            // "other offsets": every point whose frames differ from the queried one's
-            let (_, own) = direct_lookups(&m, &[offset]).pop().unwrap();
-            let others: Vec<SourceFilePath> = table
-                .iter()
-                .filter(|(_, fr)| *fr != own)
-                .flat_map(|(_, fr)| fr.iter().flatten().cloned())
-                .collect();
-            build_case(rng, tier, &m, offset, &others)
+            build_case(rng, tier, &m, &offsets, &others)
         }
         // generated Breakpad file
         1 => {
             let (m, starts) = gen_sym_module(rng);
-            let offset = match rng.below(12) {
-                0 => rng.below(0x4000) as u32,
-                1 => starts[0].wrapping_sub(1),
-                _ => *rng.pick(&starts) + rng.below(2) as u32,
-            };
-            let looks = direct_lookups(&m, &starts);
-            let table: Vec<(u32, Frames)> = starts.iter().cloned().zip(looks.into_iter().map(|(_, f)| f)).collect();
-            let (_, own) = direct_lookups(&m, &[offset]).pop().unwrap();
-            let others: Vec<SourceFilePath> = table
-                .iter()
-                .filter(|(_, fr)| *fr != own)
-                .flat_map(|(_, fr)| fr.iter().flatten().cloned())
+            let offsets: Vec<u32> = (0..n)
+                .map(|_| match rng.below(12) {
+                    0 => rng.below(0x4000) as u32,
+                    1 => starts[0].wrapping_sub(1),
+                    _ => *rng.pick(&starts) + rng.below(2) as u32,
+                })
                 .collect();
-            build_case(rng, tier, &m, offset, &others)
+            let cfg = HelperCfg::single(format!("/fx/{}", virtual_name(&m)));
+            let loaded = loaded_line(&m, &cfg);
+            let looks = direct_lookups(&m, &cfg, &loaded, &starts);
+            let others: Vec<SourceFilePath> = starts
+                .iter()
+                .zip(looks)
+                .filter(|(a, _)| !offsets.contains(a))
+                .flat_map(|(_, (_, fr))| fr.into_iter().flatten())
+                .collect();
+            build_case(rng, tier, &m, &offsets, &others)
         }
         // fixture
         _ => {
@@ -1078,25 +1553,32 @@ fn gen_case(rng: &mut Rng, tier: Tier, family: u64) -> Vec<String> {
                 return gen_case(rng, tier, 0);
             }
             let f = rng.pick(fx);
-            let offset = if rng.chance(1, 10) || f.offsets.is_empty() {
-                *rng.pick(&f.plain_offsets)
-            } else {
-                rng.pick(&f.offsets).0
-            };
-            // other offsets: prefer neighbours (same function / same compilation unit) and a few random ones
-            let idx = f.offsets.iter().position(|(o, _)| *o == offset).unwrap_or(0);
+            let mut offsets = Vec::new();
+            let first = if rng.chance(1, 10) || f.offsets.is_empty() { *rng.pick(&f.plain_offsets) } else { rng.pick(&f.offsets).0 };
+            offsets.push(first);
+            let idx = f.offsets.iter().position(|(o, _)| *o == first).unwrap_or(0);
             let lo = idx.saturating_sub(6);
             let hi = (idx + 6).min(f.offsets.len());
+            for _ in 1..n {
+                // neighbours (same function / same compilation unit / same external file), sometimes anywhere
+                let o = if f.offsets.is_empty() || rng.chance(1, 8) {
+                    *rng.pick(&f.plain_offsets)
+                } else if rng.chance(2, 3) {
+                    f.offsets[lo + rng.below((hi - lo) as u64) as usize].0
+                } else {
+                    rng.pick(&f.offsets).0
+                };
+                offsets.push(o);
+            }
+            // other offsets: prefer neighbours and a few random ones
             let mut near: Vec<(u32, Frames)> = f.offsets[lo..hi].to_vec();
             for _ in 0..4 {
                 if !f.offsets.is_empty() {
                     near.push(rng.pick(&f.offsets).clone());
                 }
             }
-            let own: Vec<SourceFilePath> =
-                f.offsets.iter().find(|(o, _)| *o == offset).map(|(_, fr)| fr.iter().flatten().cloned().collect()).unwrap_or_default();
-            let others: Vec<SourceFilePath> = all_paths(&near, offset).into_iter().filter(|fp| !own.contains(fp)).collect();
-            build_case(rng, tier, &f.module, offset, &others)
+            let others = all_paths(&near, &offsets);
+            build_case(rng, tier, &f.module, &offsets, &others)
         }
     }
 }
@@ -1166,12 +1648,13 @@ impl Prop for C09 {
     }
     fn case_count(&self, tier: Tier) -> u64 {
         match tier {
-            Tier::Quick => 1500,
-            Tier::Thorough => 20000,
+            Tier::Quick => 700,
+            Tier::Thorough => 7000,
         }
     }
     fn fixed_cases(&self, tier: Tier) -> Vec<Case> {
-        // every fixture with debug info, a spread of its offsets (deterministic seed per fixture)
+        // every fixture with debug info, a spread of its offsets (deterministic seed per fixture); every case
+        // takes the offset, a close neighbour and (every second case) a far one
         let per = if tier == Tier::Thorough { 40 } else { 6 };
         let mut v = Vec::new();
         for (i, f) in fixtures().iter().enumerate() {
@@ -1180,14 +1663,15 @@ impl Prop for C09 {
             }
             for k in 0..per {
                 let mut rng = Rng::for_case(0xC09, (i * 1000 + k) as u64);
-                let (offset, own) = &f.offsets[(k * f.offsets.len()) / per];
-                let own: Vec<SourceFilePath> = own.iter().flatten().cloned().collect();
                 let idx = (k * f.offsets.len()) / per;
+                let mut offsets = vec![f.offsets[idx].0, f.offsets[(idx + 1) % f.offsets.len()].0];
+                if k % 2 == 1 {
+                    offsets.push(f.offsets[(idx + f.offsets.len() / 2) % f.offsets.len()].0);
+                }
                 let lo = idx.saturating_sub(8);
                 let hi = (idx + 8).min(f.offsets.len());
-                let others: Vec<SourceFilePath> =
-                    all_paths(&f.offsets[lo..hi], *offset).into_iter().filter(|fp| !own.contains(fp)).collect();
-                let ops = build_case(&mut rng, tier, &f.module, *offset, &others);
+                let others = all_paths(&f.offsets[lo..hi], &offsets);
+                let ops = build_case(&mut rng, tier, &f.module, &offsets, &others);
                 v.push(Case { name: format!("fx{i}-{k}"), ops });
             }
         }
@@ -1195,8 +1679,8 @@ impl Prop for C09 {
     }
     fn generate(&self, rng: &mut Rng, tier: Tier, _index: u64) -> Vec<String> {
         let family = match rng.below(20) {
-            0..=9 => 0,
-            10..=16 => 1,
+            0..=8 => 0,
+            9..=14 => 1,
             _ => 2,
         };
         gen_case(rng, tier, family)
@@ -1206,92 +1690,157 @@ impl Prop for C09 {
         if ops.len() < 5 {
             return vec!["bad-op".to_string()];
         }
-        let m = match parse_module_line(&ops[0]) {
-            Some(m) => m,
+        let parsed = (|| {
+            let m = parse_module_line(&ops[0])?;
+            let (direct, cands) = HelperCfg::parse(&ops[1])?;
+            let groups = parse_lookup_line(&ops[3])?;
+            let sw: Vec<&str> = ops[4].split_whitespace().collect();
+            if sw.len() < 3 || sw[0] != "store" {
+                return None;
+            }
+            let policy = Policy::parse(sw[1])?;
+            let cfg = HelperCfg { direct, cands, policy, aux: sw[2] != "noaux" };
+            Some((m, cfg, groups, sw))
+        })();
+        let (m, cfg, groups, sw) = match parsed {
+            Some(x) => x,
             None => return vec!["bad-op".to_string()],
         };
-        let offset: u32 = ops[1].split_whitespace().nth(1).and_then(|s| s.parse().ok()).unwrap_or(0);
+        let offsets: Vec<u32> = groups.iter().map(|g| g.0).collect();
         stats.bump(&format!("module_{}", ops[0].split_whitespace().nth(1).unwrap_or("?")));
         if let ModuleKind::File(rel) = &m.kind {
             stats.bump(&format!("fixture_{rel}"));
         }
+        stats.bump(&format!("offsets_{}", offsets.len()));
+        stats.bump(&format!("policy_{}", cfg.policy.name()));
+        stats.bump(if cfg.aux { "aux_present" } else { "aux_absent" });
+        stats.bump(&format!(
+            "cands_{}{}",
+            if cfg.direct { "direct_" } else { "" },
+            cfg.cands.iter().map(|c| format!("{}{}", tag(c.remote), &c.content.name()[..2])).collect::<Vec<_>>().join("-")
+        ));
 
         // the oracle lines must still describe the real code (stale corpus / replay files show up here)
-        let (class, frames) = direct_lookups(&m, &[offset]).pop().unwrap();
-        if lookup_line(&class, &frames) != ops[2] || symbolicate_line(&m, offset) != ops[3] {
+        let mut legit = Legit::new();
+        let loaded = loaded_line_noting(&m, &cfg, &mut legit);
+        let looks = direct_lookups_noting(&m, &cfg, &loaded, &offsets, &mut legit);
+        if loaded != ops[2] || lookup_line(&offsets, &looks) != ops[3] {
             out.push("oracle-mismatch".to_string());
             stats.bump("oracle_mismatch");
         }
-        stats.bump(&format!("lookup_{class}"));
-
-        // `api` line: the real to_api_file_path on the frames of the lookup line
-        let lw: Vec<&str> = ops[2].split_whitespace().collect();
-        let op_frames: Frames = lw.iter().skip(2).filter_map(|t| parse_frame_token(t)).collect();
-        stats.bump(&format!("frames_{}", op_frames.len().min(6)));
-        let mut api = String::from("api");
-        let mut distinct = BTreeSet::new();
-        for f in &op_frames {
-            api.push(' ');
-            match f {
-                None => {
-                    api.push('~');
-                    stats.bump("frame_without_file");
-                }
-                Some(fp) => {
-                    let a = to_api_file_path(fp);
-                    distinct.insert(a.clone());
-                    stats.bump(match fp.mapped_path() {
-                        None => "path_unmapped",
-                        Some(MappedPath::Git { .. }) => "path_git",
-                        Some(MappedPath::Hg { .. }) => "path_hg",
-                        Some(MappedPath::S3 { .. }) => "path_s3",
-                        Some(MappedPath::Cargo { .. }) => "path_cargo",
-                    });
-                    if a != fp.raw_path() {
-                        stats.bump("raw_differs_from_api");
-                    }
-                    api.push_str(&hx(&a));
-                }
+        match winner_of(&ops[2], &m.breakpad_id) {
+            Some(i) => {
+                stats.bump(&format!("winner_index_{i}"));
+                let t = ops[2].split_whitespace().nth(1 + i).unwrap_or("");
+                stats.bump(if t.split(',').nth(1) == Some("r") { "receiver_remote" } else { "receiver_local" });
             }
+            None => stats.bump("winner_none"),
         }
-        let with_file = op_frames.iter().flatten().count();
-        if with_file > distinct.len() {
-            stats.bump("frames_sharing_a_file");
-        }
-        if distinct.len() > 1 {
-            stats.bump("frames_with_several_files");
-        }
-        out.push(api);
 
-        // helper for this case
-        let sw: Vec<&str> = ops[4].split_whitespace().collect();
-        let abs_only = sw.get(1) == Some(&"abs");
-        stats.bump(if abs_only { "policy_abs" } else { "policy_all" });
+        // helper and the ONE symbol manager of this case
         let mut store = HashMap::new();
-        for t in sw.iter().skip(2) {
+        for t in sw.iter().skip(3) {
             if let Some((p, n)) = t.split_once(':') {
                 let n: usize = n.parse().unwrap_or(0);
                 store.insert(unhx(p), Bytes(Arc::new(vec![b'x'; n])));
             }
         }
-        let sm = SymbolManager::with_helper(RecHelper::new(m.clone(), abs_only, store));
+        let sm = SymbolManager::with_helper(RecHelper::new(m.clone(), cfg.clone(), store));
         let helper = sm.helper();
+
+        // one /symbolicate/v5 request for all offsets and their neighbours
+        let addrs = batch_addresses(&offsets);
+        let syms = symbolicate_lines(&sm, &m, &offsets, &addrs, Some(stats));
         let mut other_loads: BTreeMap<Kind, u64> = BTreeMap::new();
+        for l in helper.take_log() {
+            *other_loads.entry(l.kind).or_insert(0) += 1;
+            if l.kind != Kind::Source {
+                legit.insert((l.kind, l.path));
+            }
+        }
+
+        // `api` line per offset: the real to_api_file_path on the frames of the lookup line
+        for ((o, class, op_frames), sym) in groups.iter().zip(&syms) {
+            stats.bump(&format!("lookup_{class}"));
+            stats.bump(&format!("frames_{:02}", op_frames.len().min(12)));
+            let mut api = format!("api {o}");
+            let mut distinct = BTreeSet::new();
+            for f in op_frames {
+                api.push(' ');
+                match f {
+                    None => {
+                        api.push('~');
+                        stats.bump("frame_without_file");
+                    }
+                    Some(fp) => {
+                        let a = to_api_file_path(fp);
+                        distinct.insert(a.clone());
+                        stats.bump(match fp.mapped_path() {
+                            None => "path_unmapped",
+                            Some(MappedPath::Git { .. }) => "path_git",
+                            Some(MappedPath::Hg { .. }) => "path_hg",
+                            Some(MappedPath::S3 { .. }) => "path_s3",
+                            Some(MappedPath::Cargo { .. }) => "path_cargo",
+                        });
+                        if fp.mapped_path().is_some() && matches!(m.kind, ModuleKind::File(ref r) if !r.ends_with(".pdb")) {
+                            stats.bump("path_mapped_by_path_mapper_rs");
+                        }
+                        if a != fp.raw_path() {
+                            stats.bump("raw_differs_from_api");
+                        }
+                        api.push_str(&hx(&a));
+                    }
+                }
+            }
+            let with_file = op_frames.iter().flatten().count();
+            if with_file > distinct.len() {
+                stats.bump("frames_sharing_a_file");
+            }
+            if distinct.len() > 1 {
+                stats.bump("frames_with_several_files");
+            }
+            out.push(api);
+            stats.bump(if sym.ends_with(" -") { "sym_nothing" } else if sym.ends_with(" panic") { "sym_panic" } else { "sym_files" });
+            out.push(sym.clone());
+        }
+
         for l in &ops[5..] {
             let w: Vec<&str> = l.split_whitespace().collect();
-            if w.len() < 2 {
-                out.push("bad-op".to_string());
-                continue;
-            }
-            let file = unhx(w[1]);
-            let body = request_body(w[0], &m, offset, &file);
+            let (file, body, tag_idx) = if w.first() == Some(&"reqx") && w.len() >= 5 {
+                let id = match w[2] {
+                    "=" => m.breakpad_id.clone(),
+                    t => unhx(&t[1..]),
+                };
+                let file = unhx(w[4]);
+                let body = serde_json::json!({"debugName": unhx(w[1]), "debugId": id, "moduleOffset": unhx(w[3]), "file": file}).to_string();
+                (file, body, 5)
+            } else {
+                let offset: Option<u32> = w.get(1).and_then(|s| s.parse().ok());
+                match (offset, w.get(2)) {
+                    (Some(o), Some(f)) => {
+                        let file = unhx(f);
+                        let body = request_body(w[0], &m, o, &file);
+                        (file, body, 3)
+                    }
+                    _ => {
+                        out.push("bad-op".to_string());
+                        continue;
+                    }
+                }
+            };
             helper.take_log();
             let r = std::panic::catch_unwind(std::panic::AssertUnwindSafe(|| {
                 futures::executor::block_on(samply_api::Api::new(&sm).query_api("/source/v1", &body))
             }));
             let log = helper.take_log();
             let mut line = match r {
-                Ok(resp) => format!("r {}", classify(&resp, &file)),
+                // "open_file helper callback" is also the message when the only debug-file candidate cannot be
+                // opened (lib.rs:364-366 returns the single error as it is): an open-file error without a
+                // source-file load is a failure to obtain the symbols
+                Ok(resp) => match classify(&resp, &file) {
+                    c if c == "err:open-file" && !log.iter().any(|l| l.kind == Kind::Source) => "r err:no-symbols".to_string(),
+                    c => format!("r {c}"),
+                },
                 Err(_) => {
                     stats.bump("panics");
                     out.push("panic".to_string());
@@ -1299,20 +1848,41 @@ impl Prop for C09 {
                 }
             };
             let mut nsrc = 0;
-            for (k, p) in log {
-                if k == Kind::Source {
-                    line.push(' ');
-                    line.push_str(&hx(&p));
+            for l in log {
+                if l.kind == Kind::Source {
+                    line.push_str(&format!(" {},{},{}", tag(l.remote), hx(l.base.as_deref().unwrap_or("")), hx(&l.path)));
                     nsrc += 1;
+                    if l.path.starts_with("url:") {
+                        stats.bump("source_load_url");
+                    } else if l.base.as_deref().map(|b| !b.is_empty() && l.path.starts_with(dir_of(b)) && !dir_of(b).is_empty()).unwrap_or(false)
+                        && cfg.policy == Policy::Wholesym
+                    {
+                        stats.bump("source_load_joined_to_debug_dir");
+                    }
                 } else {
-                    *other_loads.entry(k).or_insert(0) += 1;
+                    *other_loads.entry(l.kind).or_insert(0) += 1;
+                    // a load through another constructor (`location_for_external_object_file(requested)` …)
+                    // that the library's own symbol lookup never makes is reported: neither the model nor the
+                    // judge accepts such a token
+                    if !legit.contains(&(l.kind, l.path.clone())) {
+                        line.push_str(&format!(" x{:?},{}", l.kind, hx(&l.path)));
+                        stats.bump("unexpected_non_source_load");
+                    }
                 }
             }
-            stats.bump(&format!("req_{}", w.get(2).copied().unwrap_or(w[0])));
+            stats.bump(&format!("req_{}", w.get(tag_idx).copied().unwrap_or(w[0])));
             let cls = line.split_whitespace().nth(1).unwrap_or("?");
             stats.bump(&format!("resp_{}", if cls.starts_with("ok:") { "ok" } else { cls }));
             stats.bump(&format!("source_loads_{nsrc}"));
             out.push(line);
+        }
+
+        // the manager has now seen every offset through both endpoints: the batched answer must not have moved
+        let again = symbolicate_lines(&sm, &m, &offsets, &addrs, None);
+        helper.take_log();
+        if again != syms {
+            stats.bump("sym_unstable");
+            out.push("sym-unstable".to_string());
         }
         for (k, n) in other_loads {
             stats.add(&format!("non_source_loads_{k:?}"), n);
@@ -1335,13 +1905,32 @@ fn main() {
             };
             let differs = f.offsets.iter().flat_map(|(_, fr)| fr.iter().flatten()).filter(|fp| api_of(fp) != fp.raw_path()).count();
             let multi = f.offsets.iter().filter(|(_, fr)| fr.len() > 1).count();
-            println!("{rel} id={} offsets_with_files={} inlined={} raw!=api={} plain={}", f.module.breakpad_id, f.offsets.len(), multi, differs, f.plain_offsets.len());
+            let deepest = f.offsets.iter().map(|(_, fr)| fr.len()).max().unwrap_or(0);
+            println!("{rel} id={} offsets_with_files={} inlined={} deepest={} raw!=api={} plain={}", f.module.breakpad_id, f.offsets.len(), multi, deepest, differs, f.plain_offsets.len());
             if let Some((o, fr)) = f.offsets.iter().find(|(_, fr)| fr.iter().flatten().any(|fp| api_of(fp) != fp.raw_path())) {
                 for fp in fr.iter().flatten() {
                     println!("   {o:#x} raw={} api={}", fp.raw_path(), api_of(fp));
                 }
             }
         }
+        return;
+    }
+    // maintenance: `C09_FIX_ORACLE=<ops file>` rewrites the oracle lines (`loaded`, `lookup`) of every case
+    if let Ok(path) = std::env::var("C09_FIX_ORACLE") {
+        let text = std::fs::read_to_string(&path).expect("read");
+        let mut cases = parse_blocks(&text);
+        for (_, ops) in cases.iter_mut() {
+            let m = parse_module_line(&ops[0]).expect("module");
+            let (direct, cands) = HelperCfg::parse(&ops[1]).expect("helper");
+            let sw: Vec<&str> = ops[4].split_whitespace().collect();
+            let cfg = HelperCfg { direct, cands, policy: Policy::parse(sw[1]).expect("policy"), aux: sw[2] != "noaux" };
+            let offsets: Vec<u32> =
+                ops[3].split_whitespace().skip(1).map(|t| t.split('=').next().unwrap().parse().expect("offset")).collect();
+            let loaded = loaded_line(&m, &cfg);
+            ops[3] = lookup_line(&offsets, &direct_lookups(&m, &cfg, &loaded, &offsets));
+            ops[2] = loaded;
+        }
+        std::fs::write(&path, render_blocks(&cases)).expect("write");
         return;
     }
     verif_harness::runner::run_main(&C09);
